@@ -51,6 +51,31 @@ func c13Oracle(c *ExecCase) (msg string, nTop int, thunks int) {
 	if err != nil {
 		return "HARNESS: PlanQuery: " + err.Error(), nTop, 0
 	}
+	// two plan caches that first served the same mutation with its top-level selections in the
+	// opposite order: an entry shared between the two documents would run the fields in the other
+	// document's order
+	caches := []*graphql.PlanCache{graphql.NewPlanCache(graphql.PlanCacheOptions{Normalize: true}), graphql.NewPlanCache(graphql.PlanCacheOptions{})}
+	rev := gen.CloneDoc(c.Doc)
+	if rop := rev.Operation(c.OpName); rop != nil {
+		for i, j := 0, len(rop.Sel)-1; i < j; i, j = i+1, j-1 {
+			rop.Sel[i], rop.Sel[j] = rop.Sel[j], rop.Sel[i]
+		}
+	}
+	revText := model.Print(rev, nil).Text
+	viaCache := func(pc *graphql.PlanCache, q string, ctx context.Context) *graphql.Result {
+		pr := pc.Get(&b.Schema, q, c.OpName)
+		if pr.Plan == nil {
+			return &graphql.Result{Errors: pr.Errors}
+		}
+		args := c.goVars()
+		for k, v := range pr.SynthArgs {
+			args[k] = v
+		}
+		return graphql.ExecutePlan(pr.Plan, graphql.ExecuteParams{Schema: b.Schema, OperationName: c.OpName, Args: args, Context: ctx})
+	}
+	for _, pc := range caches {
+		viaCache(pc, revText, build.WithSession(context.Background(), &build.Session{W: c.World}))
+	}
 	for rep := 0; rep < c13Repeats; rep++ {
 		var mu sync.Mutex
 		var events []string
@@ -62,7 +87,11 @@ func c13Oracle(c *ExecCase) (msg string, nTop int, thunks int) {
 		}
 		ctx := build.WithSession(context.Background(), sess)
 		var res *graphql.Result
-		switch rep % 3 {
+		switch rep % 5 {
+		case 3:
+			res = viaCache(caches[0], text, ctx)
+		case 4:
+			res = viaCache(caches[1], text, ctx)
 		case 0:
 			res = graphql.Do(graphql.Params{Schema: b.Schema, RequestString: text, VariableValues: c.goVars(), OperationName: c.OpName, Context: ctx})
 		case 1:
